@@ -16,7 +16,8 @@ use crate::poolev::{parse_events, timeline, PoolEv};
 use crate::report::{hash_of, Reporter};
 use crate::ssx::EXTRA;
 use crate::world::{Outcome, World};
-use crate::wpool::{log_uniform, provide_op, swap_op};
+use crate::wpool::{create_pool_op, log_uniform, pool_fee, provide_op, swap_op};
+use mantra_dex_std::pool_manager::PoolType;
 
 pub struct C13 {
     rng: StdRng,
@@ -134,7 +135,8 @@ fn judge_cp_deposit(p: &PoolView, d0: u128, d1: u128, tol: &Decimal, accepted: b
     let e = Q::new(BigInt::from(3), pow10(18)).add(&Q::new(BigInt::from(3), pow10(18)).mul(&one_minus));
     let within = a.le(&pa.add(&e)) && b.le(&pb.add(&e));
     let outside = a.gt(&pa.sub(&e)) || b.gt(&pb.sub(&e));
-    let boundary = (a.le(&pa.add(&e)) && a.ge(&pa.sub(&e))) || (b.le(&pb.add(&e)) && b.ge(&pb.sub(&e)));
+    // undecidable only when no direction is clearly over and at least one lies inside the rounding band
+    let boundary = within && outside;
     let rel = (d0 as f64 / r[0].max(1) as f64).log10().round() as i32;
     let abs = hash_of(&(via, pool, accepted, tol.atomics().u128() / 10u128.pow(16), rel, mag(d1)));
     if boundary {
@@ -592,6 +594,54 @@ impl C13 {
         w.restore(&snap);
         let _ = Uint128::zero();
     }
+
+    /// forked probe: a fresh constant-product pool whose base-unit ratio is far from 1, in either
+    /// denom order (the scarce asset sorting first or last); off-ratio deposits in both directions
+    /// under a tolerance are judged by the ordinary deposit clause
+    fn lopsided_deposit_probe(&mut self, w: &mut World, s: &Step, rep: &mut Reporter) {
+        let snap = w.snapshot();
+        let user = w.users[self.rng.gen_range(0..w.users.len())].clone();
+        let (denoms, scarce_first): ([&str; 2], bool) = *[(["uusdc", "ux12"], true), (["uom", "ux12"], true), (["ueth", "uusdt"], false), (["udai", "uwbtc"], false)].choose(&mut self.rng).unwrap();
+        let id = format!("lopd{}", s.idx);
+        let out = w.apply(&create_pool_op(w, &user, &denoms, PoolType::ConstantProduct, pool_fee(0, 30, 0, &[]), Some(&id)));
+        if !out.is_ok() {
+            rep.count("deposit_tol_cp", "lopsided_pool_not_created");
+            w.restore(&snap);
+            return;
+        }
+        let pid = format!("o.{id}");
+        let scarce = log_uniform(&mut self.rng, 10u128.pow(9), 10u128.pow(13));
+        let abundant = log_uniform(&mut self.rng, 10u128.pow(27), 10u128.pow(30));
+        let (r0, r1) = if scarce_first { (scarce, abundant) } else { (abundant, scarce) };
+        let seed_out = w.apply(&provide_op(&user, &pid, vec![coin(r0, denoms[0]), coin(r1, denoms[1])], None, None, None, None, None));
+        if !seed_out.is_ok() {
+            rep.count("deposit_tol_cp", "lopsided_pool_not_seeded");
+            w.restore(&snap);
+            return;
+        }
+        let funded = w.snapshot();
+        let obs = crate::ops::observe(w);
+        if let Some(p) = obs.pools.get(&pid) {
+            let r = p.canon_reserves();
+            for _ in 0..6 {
+                let k = self.rng.gen_range(10u128..2000); // 0.01x .. 2x the pool, in permille
+                let f = self.rng.gen_range(300u128..3000); // skew of the second asset, in permille
+                let d0 = (r[0] / 1000 * k).max(1);
+                let d1 = (r[1] / 1000 * k / 1000 * f).max(1);
+                let tol = *[Decimal::permille(1), Decimal::percent(1), Decimal::percent(10), Decimal::percent(30), Decimal::permille(self.rng.gen_range(0..=1000))].choose(&mut self.rng).unwrap();
+                let funds = vec![coin(d0, p.info.asset_denoms[0].clone()), coin(d1, p.info.asset_denoms[1].clone())];
+                let out = w.apply(&provide_op(&user, &pid, funds, Some(tol), None, None, None, None));
+                w.restore(&funded);
+                let m = out.err_msg().unwrap_or("");
+                if out.is_ok() || m.contains("Slippage tolerance exceeded") {
+                    judge_cp_deposit(p, d0, d1, &tol, out.is_ok(), if scarce_first { "forked lopsided pool, scarce asset first" } else { "forked lopsided pool, scarce asset last" }, rep);
+                } else {
+                    rep.count("deposit_tol_cp", "lopsided_deposit_failed_for_another_reason");
+                }
+            }
+        }
+        w.restore(&snap);
+    }
 }
 
 impl Monitor for C13 {
@@ -611,6 +661,9 @@ impl Monitor for C13 {
         self.judge_deposit(w, s, rep);
         if s.idx % 4 == 0 {
             self.probes(w, s, rep);
+        }
+        if s.idx % 25 == 7 {
+            self.lopsided_deposit_probe(w, s, rep);
         }
     }
 }
